@@ -214,9 +214,19 @@ func normCode(s string) string {
 	return strings.Join(lines, "\n")
 }
 
+// Template.Run costs far more than the escaping it drives (a new VM with its
+// register stacks per call), so cases are also rendered batchSize at a time:
+// one template repeats the placement batchSize times, each with its own global,
+// separated by a line that no value can produce; the rendered text is split
+// on the separator before it goes to the converter. buildSite verifies that a
+// batch renders exactly what the single-placement template renders.
+const batchSize = 64
+const batchSep = "\n@@@@@@\n\n"
+
 type site struct {
 	p      placement
 	tmpl   *scriggo.Template
+	batch  *scriggo.Template
 	benign map[string]conv // conversion with the benign value "zz", by converter name
 	empty  map[string]conv // conversion of the template text alone (show removed)
 }
@@ -229,7 +239,20 @@ func buildSite(p placement) *site {
 	if err != nil {
 		panic("harness: cannot build placement " + p.name + ": " + err.Error())
 	}
-	st := &site{p: p, tmpl: t, benign: map[string]conv{}, empty: map[string]conv{}}
+	var bsrc strings.Builder
+	globals := native.Declarations{}
+	for k := 0; k < batchSize; k++ {
+		if k > 0 {
+			bsrc.WriteString(batchSep)
+		}
+		fmt.Fprintf(&bsrc, "%s{{ s%d }}%s", p.pre, k, p.post)
+		globals[fmt.Sprintf("s%d", k)] = (*string)(nil)
+	}
+	bt, err := scriggo.BuildTemplate(scriggo.Files{"index.md": []byte(bsrc.String())}, "index.md", &scriggo.BuildOptions{Globals: globals})
+	if err != nil {
+		panic("harness: cannot build the batch template of " + p.name + ": " + err.Error())
+	}
+	st := &site{p: p, tmpl: t, batch: bt, benign: map[string]conv{}, empty: map[string]conv{}}
 	out, err := st.render("zz")
 	if err != nil {
 		panic("harness: benign run: " + err.Error())
@@ -241,7 +264,46 @@ func buildSite(p placement) *site {
 		st.benign[c.name] = c.convert([]byte(out))
 		st.empty[c.name] = c.convert([]byte(p.pre + p.post))
 	}
+	// self-check of the batch rendering against the single rendering
+	var probe []string
+	for _, a := range paraAlphabet {
+		probe = append(probe, a, a+"\n"+a, "\n\n\t"+a, " "+a+" ")
+	}
+	for len(probe)%batchSize != 0 {
+		probe = append(probe, "zz")
+	}
+	for i := 0; i < len(probe); i += batchSize {
+		outs, err := st.renderBatch(probe[i : i+batchSize])
+		if err != nil {
+			panic("harness: batch run: " + err.Error())
+		}
+		for k, v := range probe[i : i+batchSize] {
+			single, _ := st.render(v)
+			if outs[k] != single {
+				panic(fmt.Sprintf("harness: placement %s value %q: batch renders %q, single renders %q", p.name, v, outs[k], single))
+			}
+		}
+	}
 	return st
+}
+
+// renderBatch renders batchSize values with one Run.
+func (st *site) renderBatch(vs []string) ([]string, error) {
+	vars := make(map[string]any, batchSize)
+	vals := make([]string, batchSize)
+	copy(vals, vs)
+	for k := range vals {
+		vars[fmt.Sprintf("s%d", k)] = &vals[k]
+	}
+	var b bytes.Buffer
+	if err := st.batch.Run(&b, vars, nil); err != nil {
+		return nil, err
+	}
+	outs := strings.Split(b.String(), batchSep)
+	if len(outs) != batchSize {
+		return nil, fmt.Errorf("batch rendered %d parts", len(outs))
+	}
+	return outs, nil
 }
 
 func (st *site) render(v string) (string, error) {
@@ -423,6 +485,42 @@ func spaces(tier string) []kit.Space {
 	add := func(p placement, alpha []string, n int, tag string) {
 		st := buildSite(p)
 		en := kit.NewStringsUpTo(alpha, n)
+		var mu sync.Mutex
+		type batchRes struct {
+			outs []string
+			err  error
+		}
+		cache := map[uint64]*batchRes{}
+		renderAt := func(i uint64) (string, error) {
+			b := i / batchSize
+			mu.Lock()
+			r := cache[b]
+			mu.Unlock()
+			if r == nil {
+				vs := make([]string, 0, batchSize)
+				for k := b * batchSize; k < (b+1)*batchSize; k++ {
+					if k < en.Size() {
+						vs = append(vs, en.At(k))
+					} else {
+						vs = append(vs, "zz")
+					}
+				}
+				r = &batchRes{}
+				r.outs, r.err = st.renderBatch(vs)
+				mu.Lock()
+				cache[b] = r
+				mu.Unlock()
+			}
+			if i%batchSize == batchSize-1 {
+				mu.Lock()
+				delete(cache, b)
+				mu.Unlock()
+			}
+			if r.err != nil {
+				return "", r.err
+			}
+			return r.outs[i%batchSize], nil
+		}
 		sps = append(sps, kit.Space{
 			Name: p.name + tag,
 			Size: en.Size(),
@@ -432,7 +530,7 @@ func spaces(tier string) []kit.Space {
 			Eval: func(i uint64) kit.Outcome {
 				v := en.At(i)
 				o := kit.Outcome{OK: true, Ops: len(v) + 1}
-				rendered, err := st.render(v)
+				rendered, err := renderAt(i)
 				if err != nil {
 					return kit.Outcome{Key: "run-error place=" + p.name + " " + kit.NormMsg(err.Error()), Detail: fmt.Sprintf("template %q s=%q: %v", p.pre+"{{ s }}"+p.post, v, err), Class: "run-error", Nontrivial: true}
 				}
@@ -501,6 +599,7 @@ func main() {
 			"whitespace normalisation applied to both sides: tab and U+00A0 count as space, per-line trim, soft line breaks, blank lines carry no text",
 			"code blocks: blank lines before/after the block are not content (CommonMark 4.4)",
 			"GFM (what cmd/scriggo uses) is evaluated too but only reported in coverage.gfm_only_deviations, the statement names CommonMark",
+			"cases are rendered 64 at a time by a template that repeats the placement 64 times between separator lines (a self-check at start-up compares it with the single-placement template on ~120 values per placement); failing cases are re-rendered alone for minimisation",
 			"strings longer than the bound, other placements (headings, list items, block quotes, tables) and HTML/Markdown typed values are not explored",
 		},
 		Spaces: spaces,
